@@ -6,6 +6,8 @@ Values are strings "p/q" | "p" | "nan".  (No `ops…` table here: this file defi
 -/
 import JinnsDriver.Proto
 import JinnsModel.SolveFamily
+import JinnsModel.HoldsC18
+import JinnsModel.HoldsC19
 open Lean Jinns.Proto Jinns.SolveTrace Jinns.SolveFamily Jinns.Solve
 
 namespace Jinns.Driver.SolveProto
@@ -205,6 +207,31 @@ def agreement (ld : Loaded) (keep : List String) : List String :=
   | some s, none =>
     let d := diff ld.pg ld.gens s ld.ob.obs ld.ob.calls
     if keep.isEmpty then d else d.filter (fun f => keep.contains f)
+
+/-- the number of iterations the NaN rule allows on the program (see `Holds.C19`) -/
+def nanLimit (pg : Program) (ref : RefTrace) : Nat :=
+  if hasNaN pg.θ0 then 0
+  else match Jinns.Holds.SolveAux.firstFault ref with
+    | some k => k + 1
+    | none => pg.n
+
+/-- `Holds.C19` / `Holds.C19VL` on the observation of a run with a validation module -/
+def holdsValidation (ld : Loaded) (ref : RefTrace) : Option String :=
+  let rej := ld.ob.error.isSome
+  let pg := ld.pg
+  let calls := ld.ob.calls.map (·.params)
+  let limit := nanLimit pg ref
+  match pg.val with
+  | none => none
+  | some ⟨c, .scripted script⟩ =>
+    let outcomes := (List.range (pg.n + 1)).map (fun jx =>
+      script.getD (min jx (script.length - 1)) (some 0, false, false))
+    Jinns.Holds.holdsC19 c pg.n limit pg.θ0 outcomes calls rej ld.ob.obs
+  | some ⟨c, .vloss L bs pat early⟩ =>
+    let expected := (List.range calls.length).map (fun jx =>
+      lossTotal L (calls.getD jx []) (bs.getD jx ⟨[]⟩))
+    let vobs := ld.ob.calls.map (fun cl => cl.batch.getD ⟨[]⟩)
+    Jinns.Holds.holdsC19VL c pg.n limit pg.θ0 pat early expected vobs bs calls rej ld.ob.obs
 
 /-- significant bits of an exact value (bit length of the odd part of the numerator) -/
 def bitsOf : Val → Nat
